@@ -47,9 +47,24 @@ def llen(eng, st, l):
     return sv_int(st.heap.llen(_ref(eng, st, l)))
 
 
+TOUCH = z3.Function("touch_row", smt.ArrIV, smt.B)
+
+
+def _mentions_bound(t):
+    from z3.z3util import get_vars
+    return any(v.decl().name().startswith("q_") for v in get_vars(t))
+
+
 @spec_function()
 def lget(eng, st, l, j):
-    return SV(st.heap.lget(_ref(eng, st, l), eng.as_val(st, j).i), None)
+    r = _ref(eng, st, l)
+    idx = eng.as_val(st, j).i
+    if _mentions_bound(idx) and not _mentions_bound(r):
+        # l[<bound variable>] of a fixed list: put the row itself, as a ground term, before the solver (an uninterpreted
+        # predicate nobody constrains, so the assumption is void); the array theory then relates it to the rows of the
+        # earlier heap versions and quantified facts about those become instantiable by E-matching
+        st.assume(TOUCH(st.heap.lelems(r)))
+    return SV(st.heap.lget(r, idx), None)
 
 
 @spec_function()
